@@ -73,9 +73,8 @@ def rule_reg_map(ctx):
     ctx.check(len(cf) == 1, R, ("reg", "context_flags"), b.where(cf[0][0], cf[0][1]) if cf else None, "context_flags is set", "context_flags stored %d times" % len(cf), nontrivial=False)
 
 
-def rule_regs_source(ctx):
+def rule_regs_source(ctx, R="C04/regs-source"):
     """ThreadInfoX86::create_impl: regs/fpregs/dregs fetched with the tid being described; stack_pointer = regs.rsp"""
-    R = "C04/regs-source"
     b = ctx.body(R, TI + "::create_impl")
     if b is None:
         return
